@@ -11,8 +11,13 @@ From BE Require Import Model.GoTypes.
 Import ListNotations.
 Local Open Scope Z_scope.
 
-(* strings are sequences of Unicode code points (valid UTF-8 only) *)
+(* strings are sequences of Unicode code points.  A Go string that is not valid UTF-8 is carried with
+   each offending byte b as the item 1114112 + b (above every code point): `valid_text` says there is
+   none.  Only what the BUILD does with such a string is modelled (it is an opaque symbol for ids and
+   keyword tables; the cache codec refuses it: Model/Cache.v encodable); the pattern matcher's rune view
+   of it is not, and the correspondence check never puts one into a query text. *)
 Definition text := list N.
+Definition valid_text (t : text) : bool := forallb (fun c => (c <? 1114112)%N) t.
 Definition text_eqb (a b : text) : bool :=
   (fix go (a b : text) := match a, b with
      | [], [] => true | x :: a', y :: b' => N.eqb x y && go a' b' | _, _ => false end) a b.
